@@ -52,6 +52,8 @@ class RunCtx:
         self.V = Verifier(self.repo, self.specs, self.col)
         from . import models
         self.V.hooks.append(models.install)
+        self.engine_digest = engine_digest()
+        self.cache_hits = 0
         self.bounded = []       # bounded stand-in results: dicts
         self.assumptions = list(ASSUMPTIONS_COMMON)
         self.violations = []    # (text, replay path)
@@ -63,19 +65,91 @@ def safe(s):
     return re.sub(r'[^A-Za-z0-9_.\-]+', '_', s)[:150]
 
 
+def engine_digest():
+    import hashlib
+    h = hashlib.sha256()
+    for fn in sorted(os.listdir(HERE)):
+        if fn.endswith('.py'):
+            with open(os.path.join(HERE, fn), 'rb') as f:
+                h.update(f.read())
+    return h.hexdigest()
+
+
+def gen_target(ctx, tgt):
+    """obligations generated for one real function (all its contracts), through a content-addressed cache:
+    the key is the digest of /repo's current sources + the contracts + the engine, so a changed tree is
+    always re-read and re-verified"""
+    import pickle
+    from .obligation import Collector as _Col
+    key = '%s-%s-%s' % (ctx.repo.digest[:20], ctx.specs.digest[:20], ctx.engine_digest[:20])
+    cdir = os.path.join(ROOT, '.cache', key)
+    path = os.path.join(cdir, re.sub(r'[^A-Za-z0-9_.]+', '_', tgt) + '.pkl')
+    if os.path.exists(path) and not os.environ.get('PYVC_NOCACHE'):
+        try:
+            with open(path, 'rb') as f:
+                data = pickle.load(f)
+            ctx.cache_hits += 1
+            return data
+        except Exception:
+            pass
+    sub = _Col()
+    V = Verifier(ctx.repo, ctx.specs, sub)
+    V.hooks = list(ctx.V.hooks)
+    try:
+        V.verify_target(tgt, None)
+    except Exception as e:      # engine failure on one target -> ungenerated, not a violation
+        props = sorted(set().union(*[c.all_props for c in ctx.specs.contracts.get(tgt, [])]) or [ctx.pid])
+        sub.ungenerated(props, tgt, 'engine', 'engine error: %s: %s' % (type(e).__name__, e))
+        if ctx.args.verbose:
+            traceback.print_exc()
+    for o in sub.obs:
+        o.freeze()
+    data = {'obs': sub.obs, 'functions': sub.functions, 'inlined': sub.inlined, 'assumed': sub.assumed, 'notes': sub.notes}
+    try:
+        os.makedirs(cdir, exist_ok=True)
+        tmp = path + '.%d.tmp' % os.getpid()
+        with open(tmp, 'wb') as f:
+            pickle.dump(data, f)
+        os.replace(tmp, path)
+    except Exception:
+        pass
+    return data
+
+
+def _gen_worker(arg):
+    pid, tier, seed, tgt = arg
+
+    class A:
+        verbose = False
+    ctx = RunCtx(pid, tier, seed, A())
+    gen_target(ctx, tgt)
+    return tgt
+
+
 def run_property(pid, tier, seed, args):
     t0 = time.time()
     ctx = RunCtx(pid, tier, seed, args)
     col = ctx.col
-    # 1. contract obligations
-    for tgt, cons in ctx.specs.contracts.items():
-        if any(pid in c.all_props for c in cons):
-            try:
-                ctx.V.verify_target(tgt, [pid])
-            except Exception as e:      # engine failure on one target -> ungenerated, not a violation
-                col.ungenerated([pid], tgt, 'engine', 'engine error: %s: %s' % (type(e).__name__, e))
-                if args.verbose:
-                    traceback.print_exc()
+    # 1. contract obligations (generated per target, in parallel, cached by content digest)
+    targets = [tgt for tgt, cons in ctx.specs.contracts.items() if any(pid in c.all_props for c in cons)]
+    missing = []
+    key = '%s-%s-%s' % (ctx.repo.digest[:20], ctx.specs.digest[:20], ctx.engine_digest[:20])
+    for tgt in targets:
+        path = os.path.join(ROOT, '.cache', key, re.sub(r'[^A-Za-z0-9_.]+', '_', tgt) + '.pkl')
+        if not os.path.exists(path) or os.environ.get('PYVC_NOCACHE'):
+            missing.append(tgt)
+    if len(missing) > 1:
+        import multiprocessing as mp
+        with mp.get_context('fork').Pool(min(16, len(missing))) as pool:
+            pool.map(_gen_worker, [(pid, tier, seed, t) for t in missing], chunksize=1)
+    for tgt in targets:
+        data = gen_target(ctx, tgt)
+        for o in data['obs']:
+            col.obs.append(o)
+        col.functions |= data['functions']
+        col.inlined |= data['inlined']
+        col.assumed |= data['assumed']
+        col.notes += data['notes']
     for lem in ctx.specs.lemmas:
         if pid in lem.all_props:
             try:
